@@ -20,8 +20,10 @@ Rejections are attributed to a deviation id (root cause) by `attribute`: a predi
 outcome the root cause predicts where that is cheap (exception name / empty result).  Rejections
 matching no predicate stay plain violations.
 """
+import contextlib
 import io
 import itertools
+import signal
 import sys
 
 import numpy as np
@@ -120,6 +122,40 @@ def canonical_rle(seq):
     return [x for v, c in to_runs(list(seq)) for x in (v, c)]
 
 
+CALL_LIMIT_S = 30     # a call on an input of a few hundred elements that has not returned by then never will
+
+
+class CallTimeout(Exception):
+    pass
+
+
+TIMEOUTS = {}         # per worker process: function / read name -> number of calls that timed out
+
+
+class SkipCall(Exception):
+    pass
+
+
+@contextlib.contextmanager
+def time_limit(key, seconds=CALL_LIMIT_S):
+    """the observed call must return: a call that loops forever is recorded as raising CallTimeout
+    (an observation of the real code) instead of hanging the check; after three such observations
+    of one function a worker stops calling it (nothing is recorded for the skipped calls)"""
+    if TIMEOUTS.get(key, 0) >= 3:
+        raise SkipCall()
+
+    def on_alarm(signum, frame):
+        TIMEOUTS[key] = TIMEOUTS.get(key, 0) + 1
+        raise CallTimeout()
+    old = signal.signal(signal.SIGALRM, on_alarm)
+    signal.setitimer(signal.ITIMER_REAL, seconds)
+    try:
+        yield
+    finally:
+        signal.setitimer(signal.ITIMER_REAL, 0)
+        signal.signal(signal.SIGALRM, old)
+
+
 class Recorder:
     def __init__(self):
         self.cases = []
@@ -128,8 +164,11 @@ class Recorder:
         rec = dict(rec)
         rec["fn"] = fn
         try:
-            rec["res"] = f()
+            with time_limit(fn):
+                rec["res"] = f()
             rec["exc"] = ""
+        except SkipCall:
+            return
         except Exception as e:  # noqa
             rec["res"] = 0
             rec["exc"] = type(e).__name__
@@ -508,8 +547,11 @@ def do_read(reads, name, extra, f):
     q = dict(extra)
     q["r"] = name
     try:
-        q.update(f())
+        with time_limit("read." + name):
+            q.update(f())
         q["exc"] = ""
+    except SkipCall:
+        return
     except Exception as ex:  # noqa
         q["exc"] = type(ex).__name__
     reads.append(q)
@@ -539,13 +581,16 @@ def gen_enc_cases(chunk):
         rec = {"fn": "enc", "base": kind, "shape": list(shape), "data": list(data), "chain": list(chain),
                "vshape": list(vshape), "reads": [], "classes": [], "tree": [], "tperms": []}
         try:
-            e = make_base(enc, kind, arr)
-            rec["classes"].append(type(e).__name__)
-            for o in chain:
-                e = apply_op(e, o)
+            with time_limit("enc.build"):
+                e = make_base(enc, kind, arr)
                 rec["classes"].append(type(e).__name__)
+                for o in chain:
+                    e = apply_op(e, o)
+                    rec["classes"].append(type(e).__name__)
             rec["exc"] = ""
             rec["tree"], rec["tperms"] = tree_of(e, enc.Encoding)
+        except SkipCall:
+            continue
         except Exception as ex:  # noqa
             rec["exc"] = type(ex).__name__
             out.append(rec)
@@ -567,7 +612,8 @@ def gen_enc_cases(chunk):
             return {"v": ints(v), "vshape": [int(s) for s in v.shape]}
         do_read(R, "sparse_values", {}, sv)
         try:
-            pairs = {"r": "sparse_pairs", "idx": idx_rows(e.sparse_indices, nd), "v": ints(e.sparse_values), "exc": ""}
+            with time_limit("read.sparse_pairs"):
+                pairs = {"r": "sparse_pairs", "idx": idx_rows(e.sparse_indices, nd), "v": ints(e.sparse_values), "exc": ""}
             R.append(pairs)
         except Exception:  # noqa  (each of the two reads reports its own exception above)
             pass
@@ -702,8 +748,11 @@ def gen_grid_cases(chunk):
 
     def add(rec, f):
         try:
-            rec.update(f())
+            with time_limit(rec["fn"]):
+                rec.update(f())
             rec["exc"] = ""
+        except SkipCall:
+            return
         except Exception as ex:  # noqa
             rec["exc"] = type(ex).__name__
         out.append(rec)
@@ -949,94 +998,121 @@ def attribute_grid(c, clause):
     return []
 
 
-def report(V, name, clause, detail, cands):
-    """attribute to the first candidate that is a listed known finding, else to the first candidate"""
+def choose(V, cands):
+    """the first candidate that is a listed known finding, else the first candidate, else None"""
     for d in cands:
         if d in V.known:
-            V.violation(f"{name}:{clause}", detail, d)
             return d
-    d = cands[0] if cands else None
-    V.violation(f"{name}:{clause}", detail, d)
-    return d
+    return cands[0] if cands else None
 
 
 # ------------------------------------------------------------------ main
+ROUND_TREES = 45000        # expression trees validated per TLC round (bounds memory in the thorough tier)
+REPORT_CAP = 40            # V.violation calls per (clause, deviation); the full counts are in the evidence
+
+
 def main(argv):
+    import time
     tier = tier_from_args(argv)
     V = Verdict(PROP, tier)
     import_trimesh()
     brle, rle, dense = runlength_work(tier)
     enc_work = encoding_work(tier)
     g_work = grid_work(tier)
-    cases = []
-    for res in pmap(gen_brle_cases, brle, chunk=150):
-        cases += res
-    for res in pmap(gen_rle_cases, rle, chunk=150):
-        cases += res
-    for res in pmap(gen_dense_cases, dense, chunk=200):
-        cases += res
-    n_fn = len(cases)
-    enc_cases = [c for res in pmap(gen_enc_cases, enc_work, chunk=100) for c in res]
-    grid_cases = [c for res in pmap(gen_grid_cases, g_work, chunk=60) for c in res]
-    cases += enc_cases + grid_cases
-    # ids: an enc record owns id .. id + number of reads
+
+    def fn_round():
+        cases = []
+        for res in pmap(gen_brle_cases, brle, chunk=150):
+            cases += res
+        for res in pmap(gen_rle_cases, rle, chunk=150):
+            cases += res
+        for res in pmap(gen_dense_cases, dense, chunk=200):
+            cases += res
+        return cases
+
+    rounds = [("fn", fn_round)]
+    # interleave so that every round meets every shape / base / chain length
+    nr = max(1, -(-len(enc_work) // ROUND_TREES))
+    for k in range(nr):
+        rounds.append(("enc", lambda k=k: [c for res in pmap(gen_enc_cases, enc_work[k::nr], chunk=100) for c in res]))
+    rounds.append(("grid", lambda: [c for res in pmap(gen_grid_cases, g_work, chunk=60) for c in res]))
+
+    count = {"fn": 0, "enc": 0, "grid": 0}
+    byfn, by_dev, by_clause_dev = {}, {}, {}
+    unattributed, unattributed_examples, samples = {}, [], []
+    reads = states = rejected = 0
     nxt = 0
-    owner = {}
-    for c in cases:
-        c["id"] = nxt
-        owner[nxt] = (c, None)
-        if c["fn"] == "enc":
-            for k, q in enumerate(c["reads"]):
-                owner[nxt + 1 + k] = (c, q)
-            nxt += len(c["reads"])
-        nxt += 1
-    if n_fn < 20000 or len(enc_cases) < 5000 or len(grid_cases) < 300:
-        raise MachineryError(f"enumeration too small: {n_fn} function calls, {len(enc_cases)} trees, {len(grid_cases)} grids")
-    rejects, states, wall = tlc.validate_batches("c13", "RunLength", cases, CFG, timeout=1700)
-    byfn = {}
-    reads = 0
-    for c in cases:
-        byfn[c["fn"]] = byfn.get(c["fn"], 0) + 1
-        reads += len(c.get("reads", ()))
-    by_dev = {}
-    unattributed, unattributed_examples = {}, []
-    for cid, clause in sorted(rejects.items()):
-        if cid not in owner:
-            raise MachineryError(f"TLC rejected unknown id {cid}")
-        c, q = owner[cid]
-        if c["fn"] == "enc":
-            dev = attribute_enc(c, q, clause)
-            detail = {k: c[k] for k in ("base", "shape", "data", "chain", "tree", "exc")}
-            name = "enc.build" if q is None else "enc." + q["r"]
-            if q is not None:
-                detail["read"] = q
-        else:
-            dev = attribute_fn(c, clause) if not c["fn"].startswith("grid_") else attribute_grid(c, clause)
-            detail = {k: v for k, v in c.items() if k != "id"}
-            name = c["fn"]
-        dev = report(V, name, clause, detail, dev)
-        by_dev[dev or "-"] = by_dev.get(dev or "-", 0) + 1
-        if dev is None:
-            key = f"{name}:{clause}"
-            unattributed[key] = unattributed.get(key, 0) + 1
-            if len(unattributed_examples) < 12 and unattributed[key] == 1:
-                unattributed_examples.append({"clause": key, "detail": detail})
+    gen_wall = tlc_wall = 0.0
+    for rk, (part, gen) in enumerate(rounds):
+        t0 = time.time()
+        cases = gen()
+        gen_wall += time.time() - t0
+        # ids: an enc record owns id .. id + number of reads
+        owner = {}
+        for c in cases:
+            c["id"] = nxt
+            owner[nxt] = (c, None)
+            if c["fn"] == "enc":
+                for k, q in enumerate(c["reads"]):
+                    owner[nxt + 1 + k] = (c, q)
+                nxt += len(c["reads"])
+                reads += len(c["reads"])
+            nxt += 1
+            byfn[c["fn"]] = byfn.get(c["fn"], 0) + 1
+        count[part] += len(cases)
+        if not cases:
+            continue
+        if nxt >= 2 ** 31:
+            raise MachineryError("record ids beyond TLC integers")
+        samples.append(strip_sample(cases[(len(cases) * 2) // 3]))
+        rejects, st, wall = tlc.validate_batches(f"c13/r{rk}", "RunLength", cases, CFG, timeout=2400)
+        states += st
+        tlc_wall += wall
+        rejected += len(rejects)
+        for cid, clause in sorted(rejects.items()):
+            if cid not in owner:
+                raise MachineryError(f"TLC rejected unknown id {cid}")
+            c, q = owner[cid]
+            if c["fn"] == "enc":
+                cands = attribute_enc(c, q, clause)
+                detail = {k: c[k] for k in ("base", "shape", "data", "chain", "tree", "exc")}
+                name = "enc.build" if q is None else "enc." + q["r"]
+                if q is not None:
+                    detail["read"] = q
+            else:
+                cands = attribute_grid(c, clause) if c["fn"].startswith("grid_") else attribute_fn(c, clause)
+                detail = {k: v for k, v in c.items() if k != "id"}
+                name = c["fn"]
+            dev = choose(V, cands)
+            key = (f"{name}:{clause}", dev)
+            by_clause_dev[key] = by_clause_dev.get(key, 0) + 1
+            by_dev[dev or "-"] = by_dev.get(dev or "-", 0) + 1
+            if by_clause_dev[key] <= REPORT_CAP:
+                V.violation(key[0], detail, dev)
+            if dev is None:
+                unattributed[key[0]] = unattributed.get(key[0], 0) + 1
+                if len(unattributed_examples) < 12 and unattributed[key[0]] == 1:
+                    unattributed_examples.append({"clause": key[0], "detail": detail})
+    if count["fn"] < 20000 or count["enc"] < 5000 or count["grid"] < 300 or reads < 50000:
+        raise MachineryError(f"enumeration too small: {count}, {reads} reads")
     cov = {
         "states": states, "transitions": states,
-        "traces_validated_against_impl": len(cases),
-        "runlength_function_calls": n_fn,
-        "encoding_trees": len(enc_cases),
+        "traces_validated_against_impl": sum(count.values()),
+        "runlength_function_calls": count["fn"],
+        "encoding_trees": count["enc"],
         "encoding_reads": reads,
-        "grid_cases": len(grid_cases),
+        "grid_cases": count["grid"],
         "cases_per_function": byfn,
-        "rejected": len(rejects),
+        "rejected": rejected,
         "rejected_by_deviation": by_dev,
         "unattributed_clauses": unattributed,
         "unattributed_examples": unattributed_examples,
+        "reported_violations_capped_per_clause_and_deviation": REPORT_CAP,
         "exhaustive": True,
-        "tlc_wall_s": round(wall, 1),
-        "samples": [strip_sample(cases[n_fn // 3]), strip_sample(cases[n_fn - 1]), strip_sample(enc_cases[len(enc_cases) // 2]),
-                    strip_sample(grid_cases[-1])],
+        "rounds": len(rounds),
+        "generation_wall_s": round(gen_wall, 1),
+        "tlc_wall_s": round(tlc_wall, 1),
+        "samples": samples[:2] + samples[-1:],
     }
     return V.finish("model_checking", cov, assumptions=[
         "boolean sequences of length <= 10, sequences over {0,1,2} of length <= 7, encodings of <= 5 counts / 3 pairs",
